@@ -64,6 +64,13 @@ def call_stmt(ex, e, st):
     if isinstance(f, ast.Attribute) and isinstance(f.value, ast.Name) and f.attr in ("append", "insert"):
         name = f.value.id
         base = st.env.get(name)
+        from pyvc.sym import PairSeq
+        if isinstance(base, PairSeq) and f.attr == "append":
+            v = ex.ev(e.args[0], st)
+            if not (isinstance(v, Tup) and len(v.items) == 2):
+                raise U("append of a non-pair to a list of pairs")
+            st.env[name] = PairSeq(append(base.a, toint(v.items[0])), append(base.b, toint(v.items[1])))
+            return
         if isinstance(base, Tup) and f.attr == "append":
             st.env[name] = Tup(base.items + [ex.ev(e.args[0], st)])
             return
@@ -166,7 +173,8 @@ def delete(ex, s, st):
 # ---------------------------------------------------------------------------------------------- builtins
 def b_len(ex, e, st):
     v = ex.ev(e.args[0], st)
-    if isinstance(v, Seq):
+    from pyvc.sym import PairSeq
+    if isinstance(v, (Seq, PairSeq)):
         return v.n
     if isinstance(v, Tup):
         return iv(len(v.items))
@@ -453,12 +461,21 @@ def apply_contract(ex, st, name, c, args, line):
         ret = c.get("returns", "none")
         if isinstance(ret, dict):          # result shape depends on a static property of an argument
             ret = ret[static_key(args, c["returns_key"])]
-        res = shapes.fresh_of(ex, st, ret, f"{name}_res")
+        # repository functions under contract here are pure: equal arguments denote the same result (and the same witnesses)
+        memo = ex.__dict__.setdefault("_call_memo", {})
+        mkey = (c["name"],) + tuple(arg_key(args.get(p_)) for p_ in sorted(args))
+        hit = memo.get(mkey) if c.get("pure", True) else None
+        if hit is not None:
+            res, ghosts = hit
+        else:
+            res = shapes.fresh_of(ex, st, ret, f"{name}_res")
+            ghosts = {g: shapes.fresh_of(ex, st, shape, f"{name}_{g}") for g, shape in c.get("ghost_returns", {}).items()}
+            memo[mkey] = (res, ghosts)
         t.env["result"] = res
         t.pc = st.pc
-        for g, shape in c.get("ghost_returns", {}).items():       # existential witnesses of the callee's postcondition
-            t.env[g] = shapes.fresh_of(ex, st, shape, f"{name}_{g}")
-            st.env[f"{name}_{g}"] = t.env[g]
+        for g, val in ghosts.items():       # existential witnesses of the callee's postcondition
+            t.env[g] = val
+            st.env[f"{name}_{g}"] = val
             ex.ghost_names.add(f"{name}_{g}")
         for label, txt in c.get("ensures", {}).items():
             ex.quiet += 1
@@ -505,6 +522,22 @@ def apply_lemma(ex, e, st, L):
     ex.lemmas_used = getattr(ex, "lemmas_used", set())
     ex.lemmas_used.add(L["name"])
     return NONE
+
+
+def arg_key(v):
+    if v is None:
+        return "-"
+    if isinstance(v, Seq):
+        return ("seq", v.kind, v.elem, v.arr.sexpr(), v.start.sexpr(), v.n.sexpr(), str(v.delta))
+    if isinstance(v, Mat):
+        return ("mat", v.arr2.sexpr())
+    if isinstance(v, Tup):
+        return tuple(arg_key(x) for x in v.items)
+    if z3.is_expr(v):
+        return v.sexpr()
+    if isinstance(v, Obj):
+        return ("obj", id(v))
+    return repr(v)
 
 
 def static_key(args, key):
